@@ -144,7 +144,7 @@ Theorem fixed_item l5 c6 body nm rest ls tail lc fifo :
   Forall fgood ls -> tail_ok tail ->
   get_source_item (fx (line :: map fphys ls ++ tail) [] lc fifo)
   = (Some (RLine (strip (field ++ ftext ls))
-                 (match strip l5 with [] => None | _ => Some (nat_of_digits (strip l5)) end) nm
+                 (match label_chars l5 with [] => None | _ => Some (nat_of_digits (label_chars l5)) end) nm
                  (S lc) (fend ls (S lc) (S lc))),
      after tail (S lc + List.length ls) (fifo ++ fcoms ls (S lc))).
 Proof.
